@@ -141,7 +141,10 @@ func (s lxSpec) reference(input []byte) (toks []refTok, unaccounted bool) {
 	for steps := 0; steps < 10000; steps++ {
 		if pos == len(input) {
 			if start < pos {
-				unaccounted = true
+				// text kept by an action-less fragment is still pending: the end of the
+				// input is not a token boundary, so it is a lexical error at that text
+				toks = append(toks, refTok{1, nil, start})
+				return
 			}
 			toks = append(toks, refTok{0, nil, pos})
 			return
@@ -348,6 +351,10 @@ func lexFixtures() []lxSpec {
 			{"", []lxRule{X("INDENT"), L("A", a, push("M")), X("DEDENT"), L("B", b)}},
 			{"M", []lxRule{L("C", c, pop), X("INNER"), L("XX", lit("x"))}},
 		}},
+		// after "ab" the automaton is where it started: minimisation merges that state with the start state
+		{name: "loop-back-to-start", alpha: abc, maxIn: 5, modes: []lxMode{{"", []lxRule{
+			L("T", catT(starT(catT(a, b)), altT(a, c))),
+		}}}},
 		// a rule that matches the empty string (accepted by the generator)
 		{name: "nullable-rule", alpha: []string{"a", "b"}, maxIn: 3, modes: []lxMode{{"", []lxRule{
 			L("AS", starT(a)), L("B", b),
@@ -445,15 +452,13 @@ func TestGeneratedLexer(t *testing.T) {
 				continue // the reference semantics is defined for rules that do not match the empty string
 			}
 			want, unaccounted := spec.reference(in)
-			if unaccounted {
-				// text accumulated by an action-less fragment is pending at EOF
-				if len(got.Toks) > 0 && got.Toks[len(got.Toks)-1].Type == 0 {
-					rep.fail("C11/every-character-accounted-for/pending-text-at-EOF", label, "EOF is returned while text kept by an action-less fragment was never emitted, discarded or reported")
-				}
-				continue
-			}
+			_ = unaccounted
 			if fmt.Sprint(got.Toks) != fmt.Sprint(want) {
 				obl := "C02/token-stream-as-defined"
+				if len(want) > 0 && want[len(want)-1].Type == 1 && len(got.Toks) > 0 && got.Toks[len(got.Toks)-1].Type == 0 && len(got.Toks) == len(want) {
+					// EOF where the definition has a lexical error: consumed text was dropped silently
+					obl = "C11/every-character-accounted-for/EOF-with-consumed-text-pending"
+				}
 				if len(spec.modes) > 1 || strings.Contains(spec.name, "accum") || strings.Contains(spec.name, "pop") {
 					obl = "C07/modes-and-actions-as-defined"
 				}
